@@ -4,3 +4,4 @@ p=$1; id=$2; tier=${3:-quick}
 cd /repo && git apply "$p" || { echo "PATCH DOES NOT APPLY"; exit 9; }
 cd /verif && ./bin/mxjcheck run $id --tier $tier | grep -E "VIOLATION|class=|verdict|INCONCL|HARNESS|KNOWN" | head -12
 cd /repo && git checkout -- . && git status --short | head -3
+cd /verif && git checkout -q -- evidence 2>/dev/null
